@@ -93,6 +93,16 @@ def cases(tier, seed):
                     if bv is not None:
                         s[bk] = bv
                     out.append(_mk("default", s, fmt=fmt))
+    # the same integer schemas written as NULLABLE ({type: [integer, null]}): the default must be judged against the same range
+    for fmt in FORMATS:
+        for (bk, bv) in ((None, None), ("minimum", 0), ("maximum", 255), ("minimum", -128), ("maximum", 2 ** 31 - 1)):
+            for d in dl:
+                s = {"type": ["integer", "null"], "default": d}
+                if fmt:
+                    s["format"] = fmt
+                if bk:
+                    s[bk] = bv
+                out.append(_mk("default", s, fmt=fmt, nullable=True))
     # defaults next to an inclusive AND an exclusive bound on the same side (the effective bound is the tighter one)
     for fmt in (None, "int32", "uint8"):
         for (k1, k2) in (("minimum", "exclusiveMinimum"), ("maximum", "exclusiveMaximum")):
